@@ -622,6 +622,27 @@ def check_upload(env, ref, project, drv, program, hits, returned=None):
 
 
 # =============================================================================
+def check_fo_route(env, path_text, hits, seen, who="first"):
+    """C09: the route in every Forward Open's connection path decodes to the route the driver's path string names
+    (bare address = backplane/slot 0; no route at all towards a Micro800)"""
+    from .generic import route_hops_of_path, norm_hops
+    log = env.entry.fo_log
+    n = 0
+    while seen[0] < len(log):
+        e = log[seen[0]]
+        seen[0] += 1
+        if "route" not in e:
+            continue
+        _, want = route_hops_of_path(path_text, True)
+        if env.ctl is not None and env.ctl.micro800:
+            want = []
+        n += 1
+        if norm_hops(e["route"]) != norm_hops(want):
+            hits.hit("C09", "path.denotes", f"Forward Open of the {who} driver ({path_text!r}) carries the route {e['route']}, "
+                     f"the path names {want}", kind="fo_route", rw="fo", unresolved=False)
+    return n
+
+
 def run(sc):
     if sc.get("prop") == "C05" and not sc.get("_twin"):
         return run_with_twin(sc)
@@ -661,10 +682,70 @@ def run_once(sc):
     shape = []
     js_first = None
     last_upload_program = "*" if sc["driver"].get("init_program_tags", True) else None
+    by = sc.get("bystander")
+    envB = refB = None
+    B = {"drv": None}
+    fo_seen_a, fo_seen_b = [0], [0]
+    if by:
+        # a second, independent LogixDriver talking to another controller at another address in the same
+        # process: same tag and type names, other instance ids / handles / values.  Everything one driver
+        # instance learns must stay with that instance.
+        if by.get("mode") == "shared_tags":
+            # the documented second connection to the *same* controller: init_tags=False and plc2._tags = plc1.tags
+            envB, refB = env, ref
+        else:
+            wB = dict(by.get("world") or {"layout": "compact"}, ip=by["ip"], project=by["project"],
+                      choices=sc["world"].get("choices", {}))
+            envB = session.build({"seed": sc["seed"], "world": wB}, sim=sim, net=net)
+            refB = Ref(by["project"])
+
+    def bystander_step(aid):
+        nonlocal calls
+        hb = envB.world.hits
+        if by.get("open_before") == aid and B["drv"] is None and (by.get("mode") != "shared_tags" or opened):
+            session.begin_op(envB, aid + "/B.open")
+            envB.ctl.inject = []
+            shared = by.get("mode") == "shared_tags"
+            if shared:
+                B["drv"] = harness.lib().LogixDriver(sc["driver"]["path"], init_tags=False)
+            else:
+                B["drv"] = harness.lib().LogixDriver(by["ip"])
+            o_, r_ = harness.call(sim, B["drv"].open)
+            calls += 1
+            if o_ == "ok" and r_ and shared:
+                B["drv"]._tags = drv.tags          # as documented in LogixDriver.__init__
+            elif o_ == "ok" and r_:
+                evals["C05"] += 1
+                check_upload(envB, refB, by["project"], B["drv"], "*", hb)
+            else:
+                hb.hit("C05", "upload.failed", f"second driver: open() -> {o_}: {type(r_).__name__}: {r_}",
+                       what="exception" if o_ != "ok" else "false")
+                B["drv"] = None
+            sim.probe("second_driver_open")
+            if not shared:
+                evals["C09"] += check_fo_route(envB, by["ip"], hb, fo_seen_b, "second")
+        q = by.get("reads", {}).get(aid)
+        if q and B["drv"] is not None:
+            session.begin_op(envB, aid + "/B.read")
+            envB.ctl.inject = []
+            o_, r_ = harness.call(sim, B["drv"].read, *[x["text"] for x in q["reqs"]])
+            calls += 1
+            ev_ = check_read(envB, refB, q, o_, r_, hb, {"cs": B["drv"].connection_size})
+            for k_, v_ in ev_.items():
+                evals[k_] += v_
+            sim.probe("second_driver_read_interleaved")
+        if by.get("close_before") == aid and B["drv"] is not None:
+            session.begin_op(envB, aid + "/B.close")
+            harness.call(sim, B["drv"].close)
+            calls += 1
+            B["drv"] = None
+
     with harness.Seams(sim, net, sc["driver"].get("log", "off")):
         drv = session.make_driver(sc, env)
         opened = False
         for op in sc["ops"]:
+            if envB is not None:
+                bystander_step(op["id"])
             session.begin_op(env, op["id"])
             kind = op["kind"]
             ctl.inject = [dict(i) for i in op.get("inject", [])]
@@ -687,14 +768,10 @@ def run_once(sc):
                     break
             elif kind == "mutate_project":
                 # the program in the controller changes between two uploads (e.g. a download): every structure
-                # gets renamed members and a new handle; the next upload has to reflect that
-                for tname, td in project["types"].items():
-                    if td.get("string_cap") is not None:
-                        continue
-                    td["handle"] = (td["handle"] * 7 + 13) % 65535 + 1
-                    for m in td["members"]:
-                        if m["name"] and not m["hidden"]:
-                            m["name"] = m["name"] + "_v2"
+                # gets renamed members and a new handle, the symbol instance ids of the tags move; the next
+                # upload has to reflect that
+                mutate_project(project, op.get("ids", False))
+                ctl.reindex()
                 ref = Ref(project)
                 shape.append(("mutate_project",))
             elif kind == "get_tag_list" and op.get("inject"):
@@ -804,6 +881,7 @@ def run_once(sc):
                 sim.probe("status6_on_fragmented_read")
             if len([1 for r_ in world.oplog if r_.get("kind") == "symbol_list"]) >= 3:
                 sim.probe("symbol_list_ge3_pages")
+            evals["C09"] += check_fo_route(env, sc["driver"]["path"], hits, fo_seen_a)
             # monitors that every op feeds
             if kind in ("open", "read", "write", "get_tag_list", "close"):
                 evals["C11"] += 1
@@ -811,9 +889,17 @@ def run_once(sc):
             if sim.blown:
                 hits.hit(sc.get("prop", "C01"), "budget", f"budget {sim.blown} blown during {kind}", what=sim.blown)
                 break
+    frames = world.frames_in
+    if envB is not None and envB is not env:
+        for h in envB.world.hits.items:
+            h["features"]["driver"] = "second"
+            hits.items.append(h)
+        frames += envB.world.frames_in
+    if envB is not None:
+        shape.append(("second_driver", by.get("mode", "other_controller")))
     nontrivial = any(s[0] in ("read", "write") for s in shape) or sc.get("prop") in ("C05", "C11", "C17")
     res = {"hits": hits.items, "digest": sim.digest(), "shape": tuple(shape), "probes": dict(sim.probes),
-           "faults": dict(sim.faults_fired), "frames": world.frames_in, "calls": calls, "vtime_us": sim.now_us,
+           "faults": dict(sim.faults_fired), "frames": frames, "calls": calls, "vtime_us": sim.now_us,
            "evals": evals, "nontrivial": nontrivial, "events": sim.events if sim.keep_events else None}
     return res, js_first
 
@@ -990,7 +1076,105 @@ def gen(seed, tier, prop="C01"):
     if r.random() < 0.7:
         ops.append({"id": "oz", "kind": "close"})
     sc["ops"] = ops
+    if prop != "C05" and r.random() < 0.08:
+        # the same driver object is closed, the controller gets another program (renamed members, other handles,
+        # moved symbol instance ids), and the driver is opened again: everything it learned has to be learned anew
+        if ops[-1]["kind"] != "close":
+            ops.append({"id": "mx", "kind": "close"})
+        ops.append({"id": "my", "kind": "mutate_project", "ids": True})
+        ops.append({"id": "mz", "kind": "open"})
+        p2 = copy.deepcopy(project)
+        mutate_project(p2, True)
+        ref2 = Ref(p2)
+        for i in range(r.randint(1, 3)):
+            rw = "write" if (prop == "C02" and r.random() < 0.8) or (prop not in ("C01", "C02") and r.random() < 0.5) else "read"
+            op = gen_rw_op(r, ref2, f"n{i}", rw, prop, micro, with_prog, tier)
+            if op:
+                ops.append(op)
+    if r.random() < 0.15 and not any(o["kind"] == "mutate_project" for o in ops):
+        sc["bystander"] = gen_bystander(r, sc, tier)
     return sc
+
+
+def mutate_project(project, ids=False):
+    """in place; deterministic (gen applies it to a copy to generate the requests that follow it)"""
+    for tname, td in project["types"].items():
+        if td.get("string_cap") is not None:
+            continue
+        td["handle"] = (td["handle"] * 7 + 13) % 65535 + 1
+        for m in td["members"]:
+            if m["name"] and not m["hidden"]:
+                m["name"] = m["name"] + "_v2"
+    if ids:
+        by_scope = {}
+        for t in project["tags"]:
+            if t.get("kind", "user") == "user":
+                by_scope.setdefault(t.get("scope"), []).append(t)
+        for ts in by_scope.values():
+            rot = [t["instance_id"] for t in ts]
+            rot = rot[1:] + rot[:1]
+            for t, i in zip(ts, rot):
+                t["instance_id"] = i
+
+
+def derive_second_project(r, project):
+    """same tag and type names as `project`, but other instance ids, structure handles and values"""
+    p = copy.deepcopy(project)
+    p["name"] = ("B" + p.get("name", ""))[:20]
+    by_scope = {}
+    for t in p["tags"]:
+        if t.get("kind", "user") == "user":
+            by_scope.setdefault(t.get("scope"), []).append(t)
+    for ts in by_scope.values():
+        ids = [t["instance_id"] for t in ts]
+        k = r.randrange(len(ids)) if len(ids) > 1 else 0
+        ids = ids[k:] + ids[:k]
+        for t, i in zip(ts, ids):
+            t["instance_id"] = i
+        for t in ts:
+            if t["type"] in reqgen.INTS or t["type"] == "DWORD":
+                t["init"] = bytes(b ^ 0xA5 for b in bytes.fromhex(t["init"])).hex()
+    for td in p["types"].values():
+        if td.get("string_cap") is None:
+            # same template instance id, same layout, but another handle and other member names
+            td["handle"] = (td["handle"] * 7 + 13) % 65535 + 1
+            for m in td["members"]:
+                if m["name"] and not m["hidden"]:
+                    m["name"] = (m["name"] + "_b")[:40]
+    return p
+
+
+def gen_bystander(r, sc, tier):
+    ids = [o["id"] for o in sc["ops"]]
+    if r.random() < 0.25 and len(ids) > 1 and sc["driver"].get("init_program_tags", True):
+        # second connection to the same controller sharing the first one's tag definitions
+        refB = Ref(sc["world"]["project"])
+        by = {"mode": "shared_tags", "open_before": ids[1], "reads": {}}
+    else:
+        projB = derive_second_project(r, sc["world"]["project"])
+        refB = Ref(projB)
+        by = {"ip": "10.0.0.77", "project": projB, "open_before": r.choice(ids[:2]), "reads": {}}
+        # the other controller sits in slot 0 of a chassis behind a bridge, is a CompactLogix, or a Micro800;
+        # the second driver is always given the bare address
+        c = r.random()
+        if c < 0.4:
+            by["world"] = {"layout": "clx", "slots": r.choice((2, 4, 7)), "slot": 0, "enet_slot": 1}
+        elif c < 0.6 and not projB.get("programs"):
+            by["world"] = {"layout": "micro800", "identity": {"product_name": "2080-LC50-48QWB", "rev_major": r.choice((10, 12, 20, 21))}}
+        else:
+            by["world"] = {"layout": "compact"}
+    start = ids.index(by["open_before"])
+    for oid in ids[start:]:
+        if r.random() < 0.6:
+            q = gen_rw_op(r, refB, oid + "B", "read", "C01", (by.get("world") or {}).get("layout") == "micro800", True, tier)
+            if q:
+                q.pop("inject", None)
+                q["reqs"] = [x for x in q["reqs"] if not x.get("invalid")][:30]
+                if q["reqs"]:
+                    by["reads"][oid] = q
+    if r.random() < 0.5 and len(ids) > start + 1:
+        by["close_before"] = r.choice(ids[start + 1:])
+    return by
 
 
 def tags_visible(ref, with_prog, for_write):
@@ -1098,6 +1282,7 @@ def directed(tier, prop):
     if prop == "C04":
         out += directed_sizes(tier)
         out += directed_struct_sizes(tier)
+        out += directed_multi_fill(tier)
     if prop == "C03":
         out += directed_shapes()
         out += directed_sizes_mixed()
@@ -1167,7 +1352,9 @@ def directed_sizes(tier):
     for cs, large in ((500, False), (4000, True)):
         centers = (cs, 2 * cs) if tier == "quick" else (cs, 2 * cs, 3 * cs)
         for center in centers:
-            rng = range(center - 64, center + 65, step) if center == cs else range(center - 24, center + 25, 1)
+            # whole multiples of the fragment payload (cs minus a header of 14..46 bytes) lie below k*cs
+            k_ = center // cs
+            rng = range(center - 64, center + 65, step) if center == cs else range(center - 48 * k_ - 8, center + 25, 1)
             for size in rng:
                 for name_len in ((1, 8) if tier == "quick" else (1, 2, 8, 21, 40)):
                     for fw in ((32, 20) if tier == "thorough" else (32,)):
@@ -1251,6 +1438,37 @@ def directed_struct_sizes(tier):
     return out
 
 
+def directed_multi_fill(tier):
+    """C04: one read()/write() of six equally sized structure tags, the size swept byte by byte through the
+    values at which two (three) of them just fit / just do not fit one multi-service packet - the first
+    packet of a call and the later ones have to be accounted alike"""
+    out = []
+    for cs, large in ((500, False), (4000, True)):
+        sizes = set()
+        for per in (2, 3):
+            hi = cs // per
+            sizes.update(range(hi - (34 if tier == "quick" else 60), hi + 2))
+        for size in sorted(sizes):
+            tname = f"UF{size}"
+            ud = {tname: {"name": tname, "template_id": 0x321, "handle": 0x2468, "size": size, "align": 1, "string_cap": None,
+                          "predefined": False, "members": [{"name": "d", "type": "SINT", "array": size, "offset": 0,
+                                                            "bit": None, "hidden": False}]}}
+            names = [f"F{i}" for i in range(6)]
+            tags = [{"name": n_, "type": tname, "dims": []} for n_ in names]
+            world = base_world(tags, types=ud, large=large)
+            reqs = [{"text": n_, "ast": {"scope": None, "tag": n_, "idx": None, "path": [], "bit": None, "count": None},
+                     "invalid": None} for n_ in names]
+            vals = [{"d": [(i * 3 + k) % 256 - 128 for i in range(size)]} for k in range(6)]
+            ops = [{"id": "o0", "kind": "open"}, {"id": "o1", "kind": "read", "reqs": reqs},
+                   {"id": "o2", "kind": "write", "reqs": [dict(q) for q in reqs], "values": vals, "readback": False},
+                   {"id": "o3", "kind": "close"}]
+            out.append({"engine": "logix", "seed": 4000 + size, "prop": "C04", "world": world,
+                        "net": {"chunk": "whole", "send": "all", "latency": "zero"},
+                        "driver": {"cls": "LogixDriver", "path": "10.0.0.1", "init_tags": True, "init_program_tags": False,
+                                   "log": "off", "seq_advance": 0}, "ops": ops, "faults": []})
+    return out
+
+
 def directed_shapes():
     tags = [{"name": "a", "type": "DINT", "dims": []}, {"name": "b", "type": "DINT", "dims": [4]}]
     out = []
@@ -1329,6 +1547,18 @@ def directed_wrap(tier):
 def shrink_candidates(sc):
     out = []
     ops = sc["ops"]
+    if sc.get("bystander"):
+        c = copy.deepcopy(sc)
+        del c["bystander"]
+        out.append(c)
+        for oid in list(sc["bystander"].get("reads", {})):
+            c = copy.deepcopy(sc)
+            del c["bystander"]["reads"][oid]
+            out.append(c)
+        if "close_before" in sc["bystander"]:
+            c = copy.deepcopy(sc)
+            del c["bystander"]["close_before"]
+            out.append(c)
     # drop whole ops (keep the first open)
     for i in range(len(ops) - 1, 0, -1):
         c = copy.deepcopy(sc)
@@ -1423,5 +1653,6 @@ def sample(sc):
             "identity": sc["world"].get("identity"), "policy": sc["world"].get("policy"),
             "choices": sc["world"].get("choices"), "net": sc.get("net"), "driver": sc["driver"],
             "n_tags": len(sc["world"]["project"]["tags"]), "n_types": len(sc["world"]["project"]["types"]),
+            "second_driver": bool(sc.get("bystander")),
             "ops": [{"kind": o["kind"], "reqs": [q["text"] for q in o.get("reqs", [])][:6],
                      "values": [str(v)[:40] for v in o.get("values", [])][:6]} for o in sc["ops"]][:8]}
